@@ -194,6 +194,7 @@ func runC02Map(c *Ctx) {
 			}
 		}
 	}
+	c02MapIterators(c)
 }
 
 func isConstLike(own *Own, fn *ssa.Function, v ssa.Value) bool {
@@ -330,6 +331,7 @@ func analyzeMapLoop(p *Prog, own *Own, l *mapLoop) (problems, notes []string) {
 		case "argmin":
 			// every assignment must be guarded by a comparison that reads the current best value
 			guarded := false
+			ties := ""
 			for b := range l.blocks {
 				if len(b.Instrs) == 0 {
 					continue
@@ -339,11 +341,16 @@ func analyzeMapLoop(p *Prog, own *Own, l *mapLoop) (problems, notes []string) {
 						rs := own.roots(fn, ifi.Cond, modeDeriv)
 						if _, ok := rs[loopRoot]; ok {
 							guarded = true
+							if why := condOrdersAll(p, fn, ifi.Cond); why != "" {
+								ties = why
+							}
 						}
 					}
 				}
 			}
-			if guarded {
+			if guarded && ties != "" {
+				problems = append(problems, fmt.Sprintf("variable %q is selected by %s: among elements that agree on it the one visited first wins", name, ties))
+			} else if guarded {
 				notes = append(notes, fmt.Sprintf("%s: selected by comparison with the current best (arg-min)", name))
 			} else {
 				problems = append(problems, fmt.Sprintf("variable %q is assigned the iteration element without comparing it to the current value: an arbitrary element is chosen", name))
@@ -664,6 +671,15 @@ func returnedThenSorted(p *Prog, fn *ssa.Function, idx int, depth int) bool {
 // checkSortedUses: every other use is dominated by an in-place sort, or reads the only element of a
 // singleton (x[0] under len(x) == 1).
 func checkSortedUses(p *Prog, x ssa.Value, sortersAt, others []ssa.Instruction) string {
+	// a sort that leaves ties does not remove the map order: position comparisons (C02.LESS), string comparisons and
+	// comparisons of the elements themselves order everything; one numeric component (the line alone) does not
+	for _, s := range sortersAt {
+		if call, ok := s.(ssa.CallInstruction); ok {
+			if why := sortOrdersAll(p, call); why != "" {
+				return fmt.Sprintf("the sort at %s does not settle the order: %s", p.Pos(s.Pos()), why)
+			}
+		}
+	}
 	for _, u := range others {
 		if ia, ok := u.(*ssa.IndexAddr); ok {
 			if k, ok := constInt(ia.Index); ok && k == 0 && underLenIsOne(ia) {
